@@ -46,15 +46,15 @@ theorem C12_deadline_armed (s : St) (i : Nat) (o : Op) (t : Nat) (ho : s.ops[i]?
 /-- for a search the timer restarts with every `next()`: each receive is judged against the
 deadline of that call alone; an item that is there is returned even if the deadline has passed -/
 theorem C12_search_timer_restarts (s : St) (c : Nat) (ch : Chan) (d : Nat) (hc : s.chans[c]? = some ch)
-    (ha : ch.rxAlive = true) :
+    (hack : (s.ops[ch.opIdx]?.bind (·.res)) = some .ack) (ha : ch.rxAlive = true) :
     (∀ it, ch.items[ch.taken]? = some it →
       step s (.recv c (some d)) = some ({ s with chans := s.chans.set c { ch with taken := ch.taken + 1 } }, .item (some it))) ∧
     (ch.items[ch.taken]? = none → chanOpen s c = true → s.now < d → step s (.recv c (some d)) = some (s, .pending)) := by
   constructor
-  · intro it hit; simp [step, hc, ha, hit]
+  · intro it hit; simp [step, hc, ha, hit, hack]
   · intro hn ho hlt
     have : ¬ s.now ≥ d := by omega
-    simp [step, hc, ha, hn, ho, this]
+    simp [step, hc, ha, hn, ho, this, hack]
 
 /-- After the timeout the driver's scrub step touches exactly the timed-out ID: its routing entries
 and its reservation go, every other entry of both maps and every other reserved ID stays. -/
